@@ -23,6 +23,7 @@ From Coq Require Import List NArith ZArith Bool String Lia.
 From GmsmVerif Require Import Lib.Outcome Gen.X509Tables X509.CreateModel X509.CreateRun X509.SigAlgTables X509.CreateProofs.
 From GmsmVerif Require Import SM2.SM2Bytes SM2.SM2Spec SM2.DER SM2.SM2Model SM2.SM2SignProofs X509.CreateSM2Model X509.CreateSM2Proofs.
 From GmsmVerif Require EC.SM2Curve.
+From GmsmVerif Require Import X509.DerLayer X509.DerLayerProofs X509.ExtModel X509.ExtProofs.
 Import ListNotations.
 Local Open Scope N_scope.
 
@@ -201,11 +202,14 @@ Proof. exact created_verifies_by_contract_lemma. Qed.
 Print Assumptions created_verifies_by_contract.
 
 (* non-vacuity: key d = 1, TBS 010203, a stream whose first nonce is 2: the Create* path produces a signature *)
+Definition ex_sm2_sig : list N :=
+  match create_signature_sm2 2 (key_of 1) [1; 2; 3] (repeat 0 39 ++ [1]) with Ok (sig, _) => sig | _ => [] end.
 Example created_sm2_example :
-  exists sig, create_signature_sm2 2 (key_of 1) [1; 2; 3] (repeat 0 39 ++ [1]) = Ok (sig, [])
-              /\ checkSignature_sm2 (ScalarBaseMult 1) [1; 2; 3] (sig ++ [0]) = false
-              /\ checkSignature_sm2 (ScalarBaseMult 1) [1; 2; 3] [48; 6; 2; 1; 0; 2; 1; 5] = false.
-Proof. eexists. vm_compute. repeat split; reflexivity. Qed.
+  create_signature_sm2 2 (key_of 1) [1; 2; 3] (repeat 0 39 ++ [1]) = Ok (ex_sm2_sig, [])
+  /\ List.length ex_sm2_sig = 71%nat
+  /\ checkSignature_sm2 (ScalarBaseMult 1) [1; 2; 3] (ex_sm2_sig ++ [0]) = false
+  /\ checkSignature_sm2 (ScalarBaseMult 1) [1; 2; 3] [48; 6; 2; 1; 0; 2; 1; 5] = false.
+Proof. vm_compute. repeat split; reflexivity. Qed.
 
 (* what the correspondence runner evaluates (a table look-up, see X509/CreateRun.v) is the model *)
 Theorem runner_table_is_the_model :
@@ -251,6 +255,125 @@ Proof.
   unfold encode_integer. rewrite be_bytes_length. apply encode_len_spec.
 Qed.
 Print Assumptions serial_roundtrip.
+
+(* ---------- 4. the extensions gmsm encodes and decodes itself, at the level of identifier octets and bytes ---
+   X509/DerLayer.v is the DER layer (what encoding/asn1 writes, what its reader accepts); X509/ExtModel.v
+   follows marshalSANs / buildExtensions and parseSANExtension / the case arms of parseCertificate.
+   [small v]: the encoded value is shorter than 2^31 bytes (encoding/asn1's own limit). *)
+
+(* the DER layer itself: an element written is the element read, for every identifier octet with a low
+   tag number and every content below 2^31 bytes; an object identifier written is the one read, for
+   every OID encoding/asn1 accepts on both sides (first arc <= 2, second < 40 under 0 and 1, arcs < 2^31) *)
+Theorem der_layer_roundtrip :
+  (forall id c rest, low_tag id -> small c -> read_tlv (tlv id c ++ rest) = Some (id, c, rest)) /\
+  (forall l, Forall elem_ok l -> read_all (List.length (write_all l)) (write_all l) = Some l) /\
+  (forall oid, oid_ok oid -> exists b, encode_oid oid = Some b /\ decode_oid b = Some oid).
+Proof. split; [exact read_tlv_tlv|]. split; [exact read_all_enough|exact decode_encode_oid]. Qed.
+Print Assumptions der_layer_roundtrip.
+
+(* SubjectAltName: every list of DNS names, e-mail addresses and IP addresses (4 or 16 bytes each, as
+   net.IP documents) comes back; IPv4-mapped 16-byte addresses come back in their 4-byte form *)
+Theorem san_roundtrip :
+  forall dns emails ips,
+    Forall ip_len_ok ips -> small (marshalSANs_model dns emails ips) ->
+    parseSANExtension_model (marshalSANs_model dns emails ips) = Ok (dns, emails, map to4 ips).
+Proof. exact san_roundtrip_lemma. Qed.
+Print Assumptions san_roundtrip.
+
+(* ExtKeyUsage: every list of known usages followed by unknown OIDs (valid, and not in the table) *)
+Theorem extkeyusage_ext_roundtrip :
+  forall ekus unknown value,
+    Forall oid_ok unknown -> (forall o, In o unknown -> extKeyUsageFromOID_model o = None) ->
+    build_eku ekus unknown = Ok value -> small value ->
+    parse_eku value = Ok (ekus, unknown).
+Proof. exact eku_roundtrip_lemma. Qed.
+Print Assumptions extkeyusage_ext_roundtrip.
+
+Theorem policies_roundtrip :
+  forall oids value, Forall oid_ok oids -> build_policies oids = Ok value -> small value -> parse_policies value = Ok oids.
+Proof. exact policies_roundtrip_lemma. Qed.
+Print Assumptions policies_roundtrip.
+
+Theorem keyid_roundtrip :
+  (forall id, small (build_ski id) -> parse_ski (build_ski id) = Ok id) /\
+  (forall id, small (build_aki id) -> parse_aki (build_aki id) = Ok id).
+Proof. split; [exact ski_roundtrip_lemma|exact aki_roundtrip_lemma]. Qed.
+Print Assumptions keyid_roundtrip.
+
+(* NameConstraints (after 9737171 and 26cf598): whatever the builder accepts (no empty domain, IA5 only)
+   comes back, with the critical flag *)
+Theorem name_constraints_roundtrip :
+  forall domains critical value,
+    build_name_constraints domains = Ok value -> small value ->
+    parse_name_constraints critical value = Ok (domains, critical).
+Proof. exact name_constraints_roundtrip_lemma. Qed.
+Print Assumptions name_constraints_roundtrip.
+
+Example extension_examples :
+  marshalSANs_model [[97; 46; 98]] [] [[0;0;0;0;0;0;0;0;0;0;255;255;10;1;2;3]] = [48; 11; 130; 3; 97; 46; 98; 135; 4; 10; 1; 2; 3]
+  /\ build_eku [c_ExtKeyUsageServerAuth] [[1; 2; 3; 4]] = Ok [48; 15; 6; 8; 43; 6; 1; 5; 5; 7; 3; 1; 6; 3; 42; 3; 4]
+  /\ parse_eku [48; 15; 6; 8; 43; 6; 1; 5; 5; 7; 3; 1; 6; 3; 42; 3; 4] = Ok ([c_ExtKeyUsageServerAuth], [[1; 2; 3; 4]])
+  /\ build_name_constraints [[97; 46; 98]] = Ok [48; 9; 160; 7; 48; 5; 130; 3; 97; 46; 98]
+  /\ build_name_constraints [[]] = Err 6
+  /\ encode_oid [1; 2; 156; 10197; 1; 501] = Some [42; 129; 28; 207; 85; 1; 131; 117]
+  /\ List.length (tlv 4 (repeat 0 300)) = 304%nat.
+Proof. vm_compute. repeat split; reflexivity. Qed.
+
+(* ---------- 5. the identifiers the codec models stand for are the identifiers of the source -------------------
+   buildExtensions writes each extension under an oidExtension* literal, parseCertificate dispatches on
+   the last arc under id-ce (2.5.29); the KeyUsage constants are the bit positions of RFC 5280 4.2.1.3.
+   All read from x509.go by the translator on every run. *)
+Definition ext_oid (name : string) : option (list N) :=
+  option_map snd (find (fun pr => String.eqb (fst pr) name) gen_ext_oids).
+
+Theorem extension_identifiers_tied :
+  (* the codecs modelled in X509/CreateModel.v and X509/ExtModel.v, with the arm of parseCertificate each parser follows *)
+  ext_oid "oidExtensionKeyUsage" = Some [2; 5; 29; 15] /\
+  ext_oid "oidExtensionBasicConstraints" = Some [2; 5; 29; 19] /\
+  ext_oid "oidExtensionSubjectAltName" = Some [2; 5; 29; 17] /\
+  ext_oid "oidExtensionExtendedKeyUsage" = Some [2; 5; 29; 37] /\
+  ext_oid "oidExtensionCertificatePolicies" = Some [2; 5; 29; 32] /\
+  ext_oid "oidExtensionNameConstraints" = Some [2; 5; 29; 30] /\
+  ext_oid "oidExtensionSubjectKeyId" = Some [2; 5; 29; 14] /\
+  ext_oid "oidExtensionAuthorityKeyId" = Some [2; 5; 29; 35] /\
+  (* every one of them has an arm in parseCertificate, and every arm belongs to an extension the builder knows *)
+  (forall a, In a [15; 19; 17; 37; 32; 30; 14; 35] -> In a gen_parse_ext_arms) /\
+  (forall a, In a gen_parse_ext_arms -> exists name, In (name, [2; 5; 29; a]) gen_ext_oids).
+Proof.
+  repeat (split; [reflexivity|]). split.
+  - intros a Ha. cbn in Ha. repeat (destruct Ha as [<-|Ha]; [vm_compute; tauto|]). destruct Ha.
+  - intros a Ha. cbn in Ha.
+    repeat (destruct Ha as [<-|Ha];
+            [first [ exists "oidExtensionKeyUsage"%string; vm_compute; tauto
+                   | exists "oidExtensionBasicConstraints"%string; vm_compute; tauto
+                   | exists "oidExtensionSubjectAltName"%string; vm_compute; tauto
+                   | exists "oidExtensionNameConstraints"%string; vm_compute; tauto
+                   | exists "oidExtensionCRLDistributionPoints"%string; vm_compute; tauto
+                   | exists "oidExtensionAuthorityKeyId"%string; vm_compute; tauto
+                   | exists "oidExtensionExtendedKeyUsage"%string; vm_compute; tauto
+                   | exists "oidExtensionSubjectKeyId"%string; vm_compute; tauto
+                   | exists "oidExtensionCertificatePolicies"%string; vm_compute; tauto ]|]).
+    destruct Ha.
+Qed.
+Print Assumptions extension_identifiers_tied.
+
+(* bit i of the KeyUsage BIT STRING is the constant 1 << i, in the order of RFC 5280; parseCertificate's
+   loop and [decode_keyusage] read bits 0..8 *)
+Theorem keyusage_bit_order_tied :
+  gen_keyusage_consts =
+    [("KeyUsageDigitalSignature", 2 ^ 0); ("KeyUsageContentCommitment", 2 ^ 1); ("KeyUsageKeyEncipherment", 2 ^ 2);
+     ("KeyUsageDataEncipherment", 2 ^ 3); ("KeyUsageKeyAgreement", 2 ^ 4); ("KeyUsageCertSign", 2 ^ 5);
+     ("KeyUsageCRLSign", 2 ^ 6); ("KeyUsageEncipherOnly", 2 ^ 7); ("KeyUsageDecipherOnly", 2 ^ 8)]%string /\
+  (forall i, (i < 9)%nat ->
+     let '(bytes, bitLength) := encode_keyusage (2 ^ N.of_nat i) in
+     bitstring_at bytes bitLength i = true /\ forall j, (j < 9)%nat -> j <> i -> bitstring_at bytes bitLength j = false).
+Proof.
+  split; [reflexivity|].
+  intros i Hi. do 9 (destruct i as [|i]; [vm_compute; split; [reflexivity|];
+    intros j Hj Hne; do 9 (destruct j as [|j]; [first [reflexivity | exfalso; apply Hne; reflexivity]|]); exfalso; lia|]).
+  exfalso. lia.
+Qed.
+Print Assumptions keyusage_bit_order_tied.
 
 Example codec_examples :
   encode_keyusage 96 = ([6], 7%nat)                          (* certSign | cRLSign : 0000011x, 7 bits *)
